@@ -149,9 +149,7 @@ func (rg *rig) stallCase(ss stallSpec, id string, rng *rand.Rand) {
 
 	// The backend recovers: the key must read correctly.
 	rg.be.clearPlan(o.hash)
-	rctx, rcancel := context.WithTimeout(context.Background(), 120*time.Second)
-	defer rcancel()
-	out2 := ss.op.run(rctx, rg, rg.front, o)
+	out2 := rg.runOp(ss.op, rg.front, o)
 	log("backend healthy; %s -> %s", ss.op.name, out2)
 	r.Eval()
 	rg.judge(ss.op, o, "stall", "read-after-recovery", out2, expHit, det)
@@ -285,9 +283,7 @@ func (rg *rig) hookCancelCase(point string, p *op, id string, rng *rand.Rand) {
 			fmt.Sprintf("%s: the handler of a cancelled %s is still running 60 s after it was released from %s", rg.name, p.name, point), det)
 		return
 	}
-	rctx, rcancel := context.WithTimeout(context.Background(), 120*time.Second)
-	defer rcancel()
-	out2 := p.run(rctx, rg, rg.front, o)
+	out2 := rg.runOp(p, rg.front, o)
 	det.History = append(det.History, fmt.Sprintf("read again: %s -> %s", p.name, out2))
 	r.Eval()
 	rg.judge(p, o, "client-cancel", "read-after-cancel", out2, expHit, det)
